@@ -329,6 +329,26 @@ fn run_case(c: &Case) -> String {
     if c.op.starts_with("arr_") {
         return arr::run(c);
     }
+    if c.op == "merge_probe" {
+        macro_rules! probe {
+            ($V:ty, $( $f:ident $a:literal $b:literal $y:literal ),*) => {{
+                let x: Vec<$V> = c.bits.iter().map(|&b| <$V as Vf>::fb(b)).collect();
+                match (c.dims.first().copied(), c.dims.get(1).copied(), c.dims.get(2).copied()) {
+                    $( (Some($a), Some($b), Some($y)) => fmt_out($f(&x)), )*
+                    _ => "BAD merge_probe shape".to_string(),
+                }
+            }};
+        }
+        return match c.ty {
+            "f64" => probe!(f64, merge_probe_f64_222 2 2 2, merge_probe_f64_223 2 2 3, merge_probe_f64_232 2 3 2,
+                merge_probe_f64_233 2 3 3, merge_probe_f64_322 3 2 2, merge_probe_f64_323 3 2 3,
+                merge_probe_f64_332 3 3 2, merge_probe_f64_333 3 3 3),
+            "f32" => probe!(f32, merge_probe_f32_222 2 2 2, merge_probe_f32_223 2 2 3, merge_probe_f32_232 2 3 2,
+                merge_probe_f32_233 2 3 3, merge_probe_f32_322 3 2 2, merge_probe_f32_323 3 2 3,
+                merge_probe_f32_332 3 3 2, merge_probe_f32_333 3 3 3),
+            _ => "BAD merge_probe type".to_string(),
+        };
+    }
     match c.ty {
         "f64" => fmt_out(dispatch_f64(c)),
         "f32" => fmt_out(dispatch_f32(c)),
